@@ -78,9 +78,14 @@ def attr_args(P, D):
     return dlist(list(D) + list(P.get("co", [])))
 
 
-def attrs_src(f, mode, order=None):
+def attrs_src(f, mode, order=None, spell=()):
+    """spell: spellings that mean the same - arguments in the other order, a trailing comma, redundant parentheses around the key
+    expression, a doc comment / foreign attribute between the helper attributes, the attributes written most specific first"""
     out = []
-    for a in (order or ATTRS):
+    names = list(order or ATTRS)
+    if "attr_order" in spell:
+        names.reverse()
+    for a in names:
         o = f["cmp"][a]
         args = []
         if o["ign"]:
@@ -88,14 +93,22 @@ def attrs_src(f, mode, order=None):
         if o["rev"]:
             args.append("reverse")
         if o["sel"] == "key":
-            args.append("key = " + key_expr(a, f, mode))
+            k = key_expr(a, f, mode)
+            args.append("key = " + ("(%s)" % k if "paren_key" in spell else k))
         if o["sel"] == "idkey":
             args.append("key = $")              # the field itself, chosen explicitly
         if o["sel"] == "by":
             args.append("by = " + by_expr(a, f, mode))
+        if "arg_order" in spell:
+            args.reverse()
         if args:
-            out.append("#[%s(%s)]" % (a, ", ".join(_guise_args(args))))
+            out.append("#[%s(%s%s)]" % (a, ", ".join(_guise_args(args)), ", " if "trailing_comma" in spell else ""))
+    if "doc_between" in spell and out:
+        return "#[doc = \"d\"] " + " #[allow(dead_code)] ".join(out) + " #[doc = \"e\"]"
     return " ".join(out)
+
+
+SPELLS = ["attr_order", "paren_key", "arg_order", "trailing_comma", "doc_between", "paren_ty", "pub_crate"]
 
 
 def level_attrs_src(cfg):
@@ -127,12 +140,18 @@ def item_src(P, D, name, mode, entry, for_rustc=False, generics="", extra_attrs=
         head = ("#[derive(::derive_ex::Ex)] " if for_rustc else "") + "#[derive_ex(%s)]" % dl
     head += extra_attrs + " " + level_attrs_src(P["tcmp"])
 
+    spell = tuple(P.get("spell") or ())
+
+    def tsrc(f):
+        return "(%s)" % ty_src(f) if "paren_ty" in spell else ty_src(f)
+    vis = "pub(crate) " if "pub_crate" in spell else ""
+
     def fields_src(v):
         fs = v["fields"]
         if v["shape"] == "named":
-            return "{ " + ", ".join("%s f%d: %s" % (attrs_src(f, mode), j, ty_src(f)) for j, f in enumerate(fs)) + " }"
+            return "{ " + ", ".join("%s %sf%d: %s" % (attrs_src(f, mode, spell=spell), vis if P["kind"] == "struct" else "", j, tsrc(f)) for j, f in enumerate(fs)) + " }"
         if v["shape"] == "tuple":
-            return "( " + ", ".join("%s %s" % (attrs_src(f, mode), ty_src(f)) for f in fs) + " )"
+            return "( " + ", ".join("%s %s%s" % (attrs_src(f, mode, spell=spell), vis if P["kind"] == "struct" else "", tsrc(f)) for f in fs) + " )"
         return ""
     if P["kind"] == "struct":
         v = P["variants"][0]
@@ -329,6 +348,8 @@ def random_item(rnd):
     if kind == "struct":
         shape = rnd.choice(["named", "tuple"])
         P = mkP("struct", [{"shape": shape, "fields": mkfields(rnd.choice([2, 2, 3]))}])
+        if rnd.random() < 0.35:
+            P["spell"] = rnd.sample(SPELLS, rnd.choice([1, 2]))
         if rnd.random() < 0.3:
             P["co"] = rnd.choice([["Copy", "Clone"], ["Clone"], ["Debug"]])
         return P
@@ -340,6 +361,8 @@ def random_item(rnd):
         budget = 12
         vs.append({"shape": shape, "fields": [] if shape == "unit" else mkfields(rnd.choice([1, 2, 3]))})
     P = mkP("enum", vs)
+    if rnd.random() < 0.35:
+        P["spell"] = rnd.sample(SPELLS, rnd.choice([1, 2]))
     if rnd.random() < 0.4:
         ds = rnd.sample(range(0, 9), nv)        # out of declaration order on purpose
         for v, d in zip(P["variants"], ds):
